@@ -7,6 +7,8 @@ the fields of the receipt are the persisted / current values, a receipt is issue
 the tower took on, and reading back returns what was accepted.
 -/
 import TeosVerif.Lemmas.Tower
+import TeosVerif.Model.Admin
+import TeosVerif.Lemmas.TowerInv
 
 namespace Teos.C08
 open Teos
@@ -223,5 +225,48 @@ example :
     let s := (register cfg (boot Db.empty 100 []) 7).1
     let r := addAppointment s node (some 7) 4 (.enc 64 80 300) 20 5
     r.2.1 = .accepted 100 5 2 110 ∧ getAppointment r.1 (some 7) 4 = .appt 4 (.enc 64 80 300) 20 := ⟨rfl, rfl⟩
+
+/-! ### the admin's view (private API) -/
+
+theorem length_filter_split {α : Type} (p q : α → Bool) : ∀ (l : List α),
+    (l.filter fun x => p x && q x).length + (l.filter fun x => p x && !q x).length = (l.filter p).length
+  | [] => rfl
+  | x :: r => by
+    have ih := length_filter_split p q r
+    cases hp : p x <;> cases hq : q x <;> simp [List.filter, hp, hq] <;> omega
+
+/-- **admin_view_partitions**: in a consistent database every appointment row is counted exactly once by
+`get_tower_info`: as a watcher appointment (no tracker) or as a responder tracker — what the public API
+reports as `being_watched` and `dispute_responded`. -/
+theorem admin_view_partitions (s : Tower) (h : DbInv s.db) :
+    (adminTowerInfo s).nAppointments + (adminTowerInfo s).nTrackers = s.db.liveAppts.length := by
+  unfold adminTowerInfo watcherAppts Db.liveTrackers Db.liveAppts
+  simp only [List.filter_filter]
+  have e : (s.db.apptKeys.filter fun k => (s.db.trackers k).isSome) =
+      s.db.apptKeys.filter fun k => (s.db.appts k).isSome && (s.db.trackers k).isSome := by
+    apply List.filter_congr
+    intro k _
+    cases ht : s.db.trackers k with
+    | none => simp
+    | some t => simp [(h.tracker_fk k t ht).1]
+  rw [e]
+  have := length_filter_split (fun k => (s.db.appts k).isSome) (fun k => (s.db.trackers k).isSome) s.db.apptKeys
+  have e2 : (s.db.apptKeys.filter fun k => (s.db.trackers k).isNone && (s.db.appts k).isSome) =
+      s.db.apptKeys.filter fun k => (s.db.appts k).isSome && !(s.db.trackers k).isSome := by
+    apply List.filter_congr
+    intro k _
+    cases s.db.trackers k <;> cases s.db.appts k <;> rfl
+  rw [e2]
+  omega
+
+/-- what `get_user` lists for a user is what `get_subscription_info` tells that user -/
+theorem admin_user_is_what_the_user_sees (s : Tower) (u : User) (ui : UserInfo)
+    (hu : s.mem.users u = some ui) (hne : Gen.subscriptionExpired s.mem.gkHeight ui.expiry = false) :
+    adminUser s u = some (ui.slots, ui.expiry, s.db.userLocators u) ∧
+    getSubscriptionInfo s (some u) = .subscription ui.slots ui.expiry (s.db.userLocators u) := by
+  constructor
+  · unfold adminUser; rw [hu]; rfl
+  · unfold getSubscriptionInfo authCheck
+    simp [hu, hne]
 
 end Teos.C08
